@@ -153,3 +153,11 @@ func (c *Collector) Write(dir string, seed uint64, tier string) error {
 }
 
 func hx(b []byte) string { return hex.EncodeToString(b) }
+
+func unhex(s string) []byte {
+	b, err := hex.DecodeString(s)
+	if err != nil {
+		panic(err)
+	}
+	return b
+}
